@@ -45,10 +45,10 @@ impl fmt::Display for Lx {
 }
 
 #[derive(Debug)]
-pub struct LE();
+pub struct LE(pub usize);
 impl LexError for LE {
     fn span(&self) -> Span {
-        unreachable!()
+        Span::new(self.0, self.0)
     }
 }
 impl Error for LE {}
@@ -61,6 +61,10 @@ impl fmt::Display for LE {
 pub struct StubLexer {
     pub lexemes: Vec<Lx>,
     pub text: String,
+    /// injected lexing fault: the iterator yields `Err` instead of lexeme `k` (k may be
+    /// `lexemes.len()`: an error after the last lexeme) and then either stops, as lrlex's lexer
+    /// does, or carries on with the remaining lexemes
+    pub err_at: Option<(usize, bool)>,
 }
 
 impl StubLexer {
@@ -80,7 +84,7 @@ impl StubLexer {
                 text.push((b'a' + (*t % 26) as u8) as char);
             }
         }
-        StubLexer { lexemes, text }
+        StubLexer { lexemes, text, err_at: None }
     }
 }
 
@@ -88,13 +92,21 @@ impl StubLexer {
     /// A lexer serving exactly these lexemes (used to parse a *repaired* input from scratch).
     pub fn from_lexemes(lexemes: Vec<Lx>) -> Self {
         let end = lexemes.iter().map(|l| l.start + l.len).max().unwrap_or(0);
-        StubLexer { lexemes, text: " ".repeat(end) }
+        StubLexer { lexemes, text: " ".repeat(end), err_at: None }
     }
 }
 
 impl Lexer<LT> for StubLexer {
     fn iter<'a>(&'a self) -> Box<dyn Iterator<Item = Result<Lx, LE>> + 'a> {
-        Box::new(self.lexemes.iter().map(|x| Ok(*x)))
+        match self.err_at {
+            None => Box::new(self.lexemes.iter().map(|x| Ok(*x))),
+            Some((k, goes_on)) => {
+                let k = k.min(self.lexemes.len());
+                let at = self.lexemes.get(k).map(|l| l.start).unwrap_or(self.text.len());
+                let tail = if goes_on { &self.lexemes[(k + 1).min(self.lexemes.len())..] } else { &self.lexemes[0..0] };
+                Box::new(self.lexemes[..k].iter().map(|x| Ok(*x)).chain(std::iter::once(Err(LE(at)))).chain(tail.iter().map(|x| Ok(*x))))
+            }
+        }
     }
 }
 impl<'i> NonStreamingLexer<'i, LT> for &'i StubLexer {
@@ -110,6 +122,14 @@ impl<'i> NonStreamingLexer<'i, LT> for &'i StubLexer {
 }
 impl Lexer<LT> for &StubLexer {
     fn iter<'a>(&'a self) -> Box<dyn Iterator<Item = Result<Lx, LE>> + 'a> {
-        Box::new(self.lexemes.iter().map(|x| Ok(*x)))
+        match self.err_at {
+            None => Box::new(self.lexemes.iter().map(|x| Ok(*x))),
+            Some((k, goes_on)) => {
+                let k = k.min(self.lexemes.len());
+                let at = self.lexemes.get(k).map(|l| l.start).unwrap_or(self.text.len());
+                let tail = if goes_on { &self.lexemes[(k + 1).min(self.lexemes.len())..] } else { &self.lexemes[0..0] };
+                Box::new(self.lexemes[..k].iter().map(|x| Ok(*x)).chain(std::iter::once(Err(LE(at)))).chain(tail.iter().map(|x| Ok(*x))))
+            }
+        }
     }
 }
